@@ -58,12 +58,11 @@ class Shuffle(pipes.Shuffle, EnvironmentFilter):
 
                 # np.corrcoef(R1,R2)
 
-            old_seed = self._seed
+            #the temporary seed is kept local so that self._seed (and so params and later
+            #reads) stays the same when a read is abandoned before the generator finishes
             new_seed = self._seed * 3.21 if self._seed is not None else self._seed
 
-            self._seed = new_seed
-            yield from super().filter(interactions)
-            self._seed = old_seed
+            yield from CobaRandom(new_seed).shuffle(list(interactions),inplace=True)
 
         else:
             yield from super().filter(interactions)
